@@ -11,6 +11,8 @@
 #include <errno.h>
 #include <signal.h>
 #include <sys/time.h>
+#include <sys/resource.h>
+#include <pthread.h>
 #include "w2c2_base.h"
 
 typedef struct WasiFileDescriptorX { int fd; void* dir; char* path; } WasiFileDescriptorX;
@@ -65,6 +67,19 @@ static void storm(int on) {
     memset(&it, 0, sizeof it);
     if (on) { it.it_interval.tv_usec = g_storm_usec; it.it_value.tv_usec = g_storm_usec; }
     setitimer(ITIMER_REAL, &it, NULL);
+}
+
+/* "burn <ms>": another thread of the process consumes <ms> milliseconds of CPU time and ends (the per-thread CPU clock of the
+   calling thread must not show it; the process clock must) */
+static void* burner(void* arg) {
+    long ms = (long)arg; struct timespec a, b; volatile unsigned long x = 0;
+    clock_gettime(CLOCK_THREAD_CPUTIME_ID, &a);
+    for (;;) {
+        int k; for (k = 0; k < 100000; k++) x += k;
+        clock_gettime(CLOCK_THREAD_CPUTIME_ID, &b);
+        if ((b.tv_sec - a.tv_sec) * 1000L + (b.tv_nsec - a.tv_nsec) / 1000000L >= ms) break;
+    }
+    return NULL;
 }
 
 static int hexval(int c) { return c <= '9' ? c - '0' : (c | 32) - 'a' + 10; }
@@ -136,6 +151,17 @@ int main(int argc, char** argv) {
             memset(&sa, 0, sizeof sa);
             sa.sa_handler = on_alarm; sa.sa_flags = SA_RESTART;
             sigaction(SIGALRM, &sa, NULL);
+            fprintf(out, "ok\n");
+        } else if (strcmp(cmd, "fsize") == 0) {
+            /* soft file-size limit of the process (RLIMIT_FSIZE); SIGXFSZ ignored, as an embedder that wants EFBIG does */
+            struct rlimit rl; long long n = atoll(strtok(NULL, " \n"));
+            signal(SIGXFSZ, SIG_IGN);
+            getrlimit(RLIMIT_FSIZE, &rl);
+            rl.rlim_cur = n < 0 ? rl.rlim_max : (rlim_t)n;
+            fprintf(out, "ok %d\n", setrlimit(RLIMIT_FSIZE, &rl));
+        } else if (strcmp(cmd, "burn") == 0) {
+            pthread_t t; long ms = atol(strtok(NULL, " \n"));
+            if (pthread_create(&t, NULL, burner, (void*)ms) == 0) pthread_join(t, NULL);
             fprintf(out, "ok\n");
         } else if (strcmp(cmd, "now") == 0) {
             struct timespec ts; int id = atoi(strtok(NULL, " \n"));
